@@ -16,7 +16,10 @@ RULE = ("exhaustive: one record of every length 1..L at every line width 1..W (q
         "string-encoded-chromosome path; files of 2..4 records mixing widths, single-line records, full/short last lines and names "
         "with descriptions (spaces, tabs, VT/FF), one file in four several hundred bytes long: the written .fai text, index rows, "
         "keys, contig lengths, whole-contig reads, interval batches across records, Genome.from_file(fasta), create_index over "
-        "several chunks. Non-trivial = an interval touching or crossing a line break, W = 1, a short last line, "
+        "several chunks (many small records, several whole records per chunk), one FASTA larger than the reader's 5,000,000-byte "
+        "chunk (several in thorough) indexed with the real default chunk size, string-encoded interval chromosomes whose label "
+        "order/set differs from the file order, genome-encoded intervals with sort_names, results of successive fetches compared "
+        "only after all fetches are done. Non-trivial = an interval touching or crossing a line break, W = 1, a short last line, "
         ">= 2 records or a description")
 EXHAUSTIVE = {"quick": True, "thorough": True}
 MODEL_OPS = {"index", "fetch", "contig", "genome", "index_chunked"}
@@ -24,9 +27,9 @@ PARALLEL = 0
 ASSUMPTIONS = [
     "the OS file is modelled as a byte list (seek/read = drop/take; readinto a zero-filled buffer); LF line ends only (CRLF FASTA is outside C17's quantifier)",
     "NumPy reshape / column slice / ravel / delete as list functions (reshapeCols, deleteIdx)",
-    "multi-chunk index building is proved for every chunking that cuts at record boundaries (index_chunks); that the reader "
-    "cuts wrapped FASTA only right before a header line is C01's theorem (readAll_bytes_fasta); the correspondence runs the real "
-    "create_index with a lowered default chunk size and gives the Lean model the chunk sizes the real reader delivered",
+    "multi-chunk index building is proved end to end over C01's reader model (index_reader_chunks, using C01.readAll_bytes_fasta); "
+    "that the real reader behaves as C01's model is C01's correspondence; here the real create_index is run with a lowered default "
+    "chunk size (and with the real default on files > 5 MB) and the Lean model is given the chunk sizes the real reader delivered",
     "the .fai is written column-wise by ints_to_strings (element-wise by C18.batch_independent) and read with Python int() / str.split "
     "(modelled as digit-string value / split on ASCII whitespace)",
     "names are non-empty, start with a non-blank, contain no '_' for the Genome cases (Genome filters such names by default); "
@@ -41,7 +44,9 @@ MANIFEST = {
             "offset of the first base, bases per line, bytes per line), fetch_interval (for every 0<=a<=b<=L the row/mod byte range with "
             "the newline positions deleted is exactly seq[a:b], wherever a and b fall relative to line breaks, W=1 included), "
             "fetch_contig, random_access (end to end on a whole file), contig_lengths (+ refutation of the rule shipped before the "
-            "repair), index_chunks (offsets add up across chunks for every record-aligned chunking), fai_roundtrip / genome_sizes / "
+            "repair), index_chunks + index_reader_chunks (for EVERY chunk size and both reader modes, create_index over the chunks that "
+            "C01's reader model delivers equals the index of the whole file: a cut after a newline and before '>' is a record "
+            "boundary), fast_path_same (the vectorised path's traced arithmetic equals the scalar path's for all integers), fai_roundtrip / genome_sizes / "
             "fai_file (the written .fai read back by read_index and by Genome.from_file gives the built rows / the true lengths), "
             "traced_kernel / traced_bytes_to_read / fetch_uses_traced (the model's seek position, read length, deleted-newline count, "
             "start column, row count and bytes-to-read ARE the expressions symbolically traced from the running "
@@ -363,10 +368,23 @@ def cases(tier, rng):
             yield {"op": "index", "recs": recs}
             yield {"op": "contig", "recs": recs, "supplied": False}
     # 2b. files larger than the reader's default chunk (5,000,000 bytes), >= 2 records inside a non-final chunk
-    yield _large_case(rng, 4, 1_700_000)
+    yield _large_case(rng, 7, 900_000)           # first chunk: five whole records, > 4 MB
     if big:
+        yield _large_case(rng, 4, 1_700_000)
         yield _large_case(rng, 9, 1_300_000)
         yield _large_case(rng, 3, 2_600_000)
+        yield _large_case(rng, 40, 300_000)       # > 10 MB, three chunks of ~16 records
+    # 2c. many small records, chunk sizes that put several whole records into every chunk of a multi-chunk read
+    for _ in range(250 if big else 30):
+        k = rng.randint(8, 20)
+        recs = []
+        for i in range(k):
+            n = rng.randint(1, 14)
+            recs.append({"h": "s%d" % i + rng.choice(["", "", " d", "\tx y"]), "seq": _seq(rng, n),
+                         "w": rng.choice([1, 2, 3, 5, n, 60])})
+        yield {"op": "index_chunked", "recs": recs, "chunk": rng.choice([48, 64, 90, 128, 160])}
+        if rng.random() < 0.3:
+            yield {"op": "index", "recs": recs}
     # 3. random multi-record files
     for _ in range(1500 if big else 120):
         # one file in four is several hundred bytes long (offsets beyond one line / one small chunk)
